@@ -117,7 +117,7 @@ def _loop_discipline(chk, mod, f, open_test_ok):
             empt = any(H.match(p_, guard.test) is not None for p_ in ("$d.empty", "len($d) == 0", "$d.shape[0] == 0", "not len($d)", "len($d) < 1", "$d.size == 0", "len($$d) == 0", "$$d.empty"))
             verdict = True if empt else False
         else:
-            verdict = True if gtest == "self.device_type == DeviceType.GPU" else None
+            verdict = True if isinstance(guard, ast.If) and H.match("self.device_type == DeviceType.GPU", guard.test) is not None else None
         chk.ob("C03.R3-builder", f"{mod.name}: early exit in front of the scan (`if {gtest}: return`) does not skip a thread that has events", verdict, mod.loc(r_), found=gtest,
                accepted="device stacks (no call stack is built for a GPU stream) or an EMPTY event list", why="`len(df) < 2` returns before the single event of a one-event thread is added: it never appears in the tree")
     top = [s for s in lp.body if isinstance(s, ast.If)]
